@@ -322,9 +322,10 @@ class MessageQueue(Entity):
 
         yield self._delivery_latency
 
-        # Create delivery event
+        # Create delivery event, stamped with the clock read *after* the latency
+        # (the `now` captured above is in the past by the time we resume).
         delivery_event = Event(
-            time=now,
+            time=self._clock.now if self._clock else Instant.Epoch,
             event_type="message_delivery",
             target=consumer,
             context={
